@@ -2,6 +2,7 @@ package an
 
 import (
 	"fmt"
+	"go/token"
 	"go/types"
 	"sort"
 	"strings"
@@ -209,6 +210,13 @@ func judgeMapLoop(w *World, fn *ssa.Function, rg *ssa.Range) (int, string) {
 							errOnly = false
 							continue
 						}
+					}
+					// a helper that only enters keys into sets (constant or fresh-empty values): the
+					// final state is the same in every order
+					if setInsertionsOnly(w, callee, map[*ssa.Function]bool{}) {
+						effects++
+						errOnly = false
+						continue
 					}
 					effects++
 					problems = append(problems, "call of "+FuncName(callee)+" (has effects) once per element, in iteration order")
@@ -862,4 +870,74 @@ func c14TranspileState(w *World, r *Result, rule string) {
 			}
 		}
 	}
+}
+
+// setInsertionsOnly: everything fn (and what it calls) does to memory that outlives it is to
+// enter a key into a map with a value that does not depend on when it happens: a constant, an
+// empty struct, a freshly made empty map. Such insertions commute and are idempotent.
+func setInsertionsOnly(w *World, fn *ssa.Function, seen map[*ssa.Function]bool) bool {
+	if seen[fn] {
+		return true
+	}
+	if fn.Blocks == nil {
+		return false
+	}
+	seen[fn] = true
+	timeless := func(v ssa.Value) bool {
+		switch x := v.(type) {
+		case *ssa.Const:
+			return true
+		case *ssa.MakeMap:
+			return true
+		case *ssa.UnOp:
+			if al, ok := x.X.(*ssa.Alloc); ok && x.Op == token.MUL {
+				if st, ok := al.Type().Underlying().(*types.Pointer).Elem().Underlying().(*types.Struct); ok && st.NumFields() == 0 {
+					return true
+				}
+			}
+		case *ssa.Phi:
+			for _, e := range x.Edges {
+				switch e.(type) {
+				case *ssa.Const, *ssa.MakeMap:
+				case *ssa.Extract, *ssa.Lookup:
+					// the entry found under the same key (kept as it is)
+				default:
+					return false
+				}
+			}
+			return true
+		}
+		return false
+	}
+	for _, b := range fn.Blocks {
+		for _, ins := range b.Instrs {
+			switch x := ins.(type) {
+			case *ssa.MapUpdate:
+				if !timeless(x.Value) {
+					return false
+				}
+			case *ssa.Store:
+				switch a := x.Addr.(type) {
+				case *ssa.Alloc:
+				case *ssa.IndexAddr:
+					if _, ok := a.X.(*ssa.Alloc); !ok {
+						return false
+					}
+				case *ssa.FieldAddr:
+					if _, ok := a.X.(*ssa.Alloc); !ok {
+						return false
+					}
+				default:
+					return false
+				}
+			case *ssa.Call:
+				if callee := x.Call.StaticCallee(); callee != nil && w.IsProduct(pkgOf(callee)) {
+					if mayHaveEffects(w, callee, map[*ssa.Function]bool{}) && !setInsertionsOnly(w, callee, seen) {
+						return false
+					}
+				}
+			}
+		}
+	}
+	return true
 }
